@@ -57,6 +57,10 @@ def main(argv):
         return batch.digests_only(argv[1], argv[2], int(argv[3]),
                                   int(os.environ.get("VERIF_SEED", core.DEFAULT_SEED)),
                                   int(os.environ.get("VERIF_WORKERS", "4")))
+    if argv[0] == "--cold-op":
+        from sim import c20
+
+        return c20.cold_op(argv[1], argv[2] if len(argv) > 2 else None)
     if argv[0] == "--selftest":
         from sim import selftest
 
